@@ -19,7 +19,7 @@ ID = "C01"
 LEVEL = "model_checking"
 MIN_OUTCOMES = 4
 MANIFEST = {
-    'text': 'Explicit-state exploration of the bump transition system on the real command bodies: from every (pattern, seed state; the grammar plus six patterns with a less significant calendar part in front) all 2^5 flags x 3 tag choices x 4 date kinds run through `test`; a sub-alphabet plus every constructed --set-version target (greater, equal, lower, PEP 440-equal respellings, other-scheme, junk, empty) run through test, update --dry and update in a scratch project; and, with tags served by a fake git, every placement of 5 (thorough 7) tags x scope x config position x bump flags (incl. a failing fetch, the scope given on the command line against a config naming another one, and `.git` being a file as in linked work trees) through update --dry; 14 malformed flag shapes (impossible dates, unknown tags, conflicting or dangling options) through test/update: whenever a run exits 0 the announced version full-matches the reference recogniser and is strictly greater than the reference start version (config or newest tag in scope); otherwise no byte of any file changes.',
+    'text': 'Explicit-state exploration of the bump transition system on the real command bodies: from every (pattern, seed state; the grammar plus six patterns with a less significant calendar part in front) all 2^5 flags x 5 tag choices (none, dev, rc, post, final) x 4 date kinds run through `test`; a sub-alphabet plus every constructed --set-version target (greater, equal, lower, PEP 440-equal respellings, other-scheme, junk, empty) run through test, update --dry and update in a scratch project; and, with tags served by a fake git, every placement of 5 (thorough 7) tags x scope x config position x bump flags (incl. a failing fetch, the scope given on the command line against a config naming another one, and `.git` being a file as in linked work trees) through update --dry; 14 malformed flag shapes (impossible dates, unknown tags, conflicting or dangling options) through test/update: whenever a run exits 0 the announced version full-matches the reference recogniser and is strictly greater than the reference start version (config or newest tag in scope); otherwise no byte of any file changes.',
     'note': "order for non-PEP 440 strings uses bumpver's own key (C16 validates it); start-version rule shared with C09's reference",
     'technique': 'explicit-state model checking of the implementation: invariant on every transition of the bounded bump graph',
 }
@@ -32,7 +32,7 @@ ASSUMPTIONS = [
     "packaging.version decides PEP 440 order; bumpver's key is used only when a string is not PEP 440",
 ]
 
-TEST_TAGS = (None, "rc", "final")
+TEST_TAGS = (None, "dev", "rc", "post", "final")  # (dev sorts BELOW every pre-release of the same number, post above the final release)
 TEST_DATES = ("pin", "same", "next-year", "-400d")
 
 
@@ -201,7 +201,7 @@ def set_version_targets(pat, state, old_text):
         out.append(("greater:year", M.render(pat.tree, dict(state, year=state["year"] + 1))))
         out.append(("lower:year", M.render(pat.tree, dict(state, year=state["year"] - 1))))
     if "tag" in pat.fields:
-        for t in ("alpha", "rc", "post", "final"):
+        for t in ("dev", "alpha", "beta", "rc", "post", "final"):
             if t != state["tag"]:
                 out.append((f"tag:{t}", M.render(pat.tree, dict(state, tag=t))))
     g = [t for (lbl, t) in out if lbl.startswith("greater")]
